@@ -11,25 +11,25 @@ from lib.props.meta import META  # noqa: E402
 
 TEXT = {
     "C01": ("Every view of every tree reached by trees()/reversed/at/at_index/first/last/aslist, plus edge_diffs/edgesets/coiterate, on thousands of generated tree sequences x option sets is compared with a per-position reference computed from the edge rows.", "reference-model oracle over generated executions (ASan+UBSan build)"),
-    "C02": ("An independent validity predicate over the raw rows decides reject/accept/either for ~10^4 valid and singly/multiply corrupted collections x index states; tree_sequence() and dump->tskit.load must agree with it, raise library errors only, and leave rows untouched.", "reference validity predicate as oracle over fault-injected table collections"),
+    "C02": ("An independent validity predicate over the raw rows decides reject/accept/either for ~10^4 valid and singly/multiply corrupted collections (a 378-entry operator catalogue swept round-robin, exact-boundary values, large instances) x index states, entered through every form of tree_sequence()/tskit.load/load_tables; files whose stored index cannot come from dump() are re-packed by an independent kastore writer; the gate must agree with the predicate, raise library errors only, and leave rows untouched.", "reference validity predicate as oracle over fault-injected table collections and re-packed files"),
     "C03": ("Genotypes from variants/decode (any order)/genotype_matrix/haplotypes/alignments with every option are compared with a nearest-mutation reference walk.", "reference-model oracle + history checker over decode orders"),
     "C04": ("simplify output is compared per position with the induced genealogy computed from the input forest for every option combination, plus node map, genotypes, filters and idempotence.", "reference-model post-condition on simplify executions"),
-    "C05": ("A FIFO stream model checks multi-object dump/load byte-exactly over files, pipes and sockets; dict/pickle/copy round trips and the equals/assert_equals matrix over ignore_* flags are compared with predictions.", "history checker over dump/load event logs + round-trip contracts"),
+    "C05": ("A FIFO stream model checks multi-object dump/load byte-exactly over files, pipes and sockets in every argument form; dict/pickle/copy round trips, chains of 3-6 transports mirrored on a never-serialised twin, large objects, stale and tie-permuted indexes, and the equals/assert_equals matrix over ignore_* flags are compared with predictions.", "history checker over dump/load event logs + round-trip contracts"),
     "C06": ("Exhaustive depth-bounded navigation histories and long random walks; after every operation the Tree is compared with a fresh Tree at the model index and with the reference forest.", "history checker against a sequential navigation model"),
     "C07": ("sort/canonicalise/repair tools on scrambled collections: permutation, key order, idempotence, start offsets, same trees and genotypes after the repair pipeline, reference mutation parents.", "reference-model post-conditions + metamorphic scrambles"),
     "C08": ("Every statistic is compared with a naive engine written from the documented definitions and with first-principles pairwise definitions; window refinement additivity; threaded == single-threaded; TSan on the GIL-releasing methods.", "naive-definition oracle, metamorphic window law, ThreadSanitizer"),
-    "C09": ("A typed catalogue of ~300 public calls x argument slots x boundary values, random programs on corrupted tables and allocation-failure enumeration run on an ASan+UBSan build, plus slices of the same workloads on the plain build under valgrind memcheck (uninitialised-memory use); any sanitizer or memcheck report in tskit code, abort, SystemError, confirmed hang or accepted out-of-range identifier is a violation.", "compiler sanitizers (ASan+UBSan) + valgrind memcheck + process-status oracle over adversarial API workloads; LD_PRELOAD allocation-fault injection"),
-    "C10": ("Every truncation offset, every structural byte x 4 patterns, arithmetic-aware descriptor edits and random data edits of generated files, on four read paths, judged through an independent parse of the file layout.", "fault enumeration over file bytes with layout-aware oracle"),
+    "C09": ("A typed catalogue of ~440 public calls x argument slots x boundary values, random programs on corrupted tables and allocation-failure enumeration run on an ASan+UBSan build, plus slices of the same workloads on the plain build under valgrind memcheck (uninitialised-memory use); any sanitizer or memcheck report in tskit code, abort, SystemError, confirmed hang or accepted out-of-range identifier is a violation.", "compiler sanitizers (ASan+UBSan) + valgrind memcheck + process-status oracle over adversarial API workloads; LD_PRELOAD allocation-fault injection"),
+    "C10": ("Every truncation offset, every structural byte x 4 patterns, arithmetic-aware descriptor edits, typed special values and boundary ids/offsets/coordinates in every numeric item, random data edits, and files re-packed by an independent kastore writer (items removed, retyped, resized), through 27 loader forms incl. pipes, sockets and the low-level loaders, judged through an independent parse of the file layout.", "fault enumeration over file bytes with layout-aware oracle"),
     "C11": ("keep/delete_intervals, trims, delete_sites, split_edges, decapitate, delete_older, extend_haplotypes compared with documentation-derived expectations per position and per retained row incl. all metadata.", "reference-model post-conditions on editing operations"),
     "C12": ("Random struct/JSON schemas and conforming/non-conforming objects: round trip vs a reference codec written from the docs, byte layout, numpy view, schema string round trip, rejection of invalid objects and schemas.", "reference codec oracle over generated schemas/values"),
-    "C13": ("Random operation programs on all eight table classes vs a Python list model; every public TreeSequence/Tree/Variant call leaves the tables hash unchanged and returned arrays are read-only or copies.", "history checker vs list model; immutability invariant hook on every API call"),
+    "C13": ("Random operation programs on all eight table classes (free-standing or inside a TableCollection, raw/JSON/struct schemas, rows from other tables and tree sequences) vs a Python list model checked after every operation; every public TreeSequence/Tree/Variant call and every write attempt through a handed-out array or object leaves the tables and the derived state unchanged, and returned arrays are read-only or copies.", "history checker vs list model; immutability invariant hook on every API call"),
     "C14": ("subset and union outputs compared with reference builders for all options; refusal on perturbed shared parts; split/rejoin equals the original after canonicalise.", "reference-model post-conditions + inverse law"),
     "C15": ("Exhaustive rank/unrank bijection and enumeration counts for small n, big-integer ranks for large n, invariance under relabelling, brute-force topology counting vs count_topologies (tree and tree-sequence level).", "exhaustive small-scope enumeration + brute-force oracle"),
     "C16": ("VCF text is parsed and rebuilt from reference genotypes for all argument combinations; mask-form metamorphism and masked-site independence.", "reference-model oracle + metamorphic mask relations"),
     "C17": ("dump_text -> load_text round trip against the reference sort, with permuted/junk/dropped columns.", "round-trip oracle + metamorphic column relations"),
     "C18": ("Own Newick/Nexus/FASTA parsers compare exports with the reference forest, labels, formatted branch lengths, fast vs general path, wrap widths.", "independent parser oracle + differential fast/general path"),
-    "C19": ("IBD segments compared with per-pair path-signature runs computed per elementary interval, all filters and store options.", "reference-model oracle"),
-    "C20": ("map_mutations output is replayed on the reference tree (reproduce), compared with a Sankoff DP optimum, and checked for order/parent/unary-chain rules; exhaustive small trees x genotype vectors.", "reference DP oracle + exhaustive small scope"),
+    "C19": ("IBD segments compared with per-pair path-signature runs computed per elementary interval, all filters (both readings at an exact max_time boundary), store options, eleven routes and argument forms, partitions with more than 2^16 sets and pairs with more than 2^16 segments.", "reference-model oracle"),
+    "C20": ("map_mutations output is replayed on the reference tree (reproduce), compared with a Sankoff DP optimum, and checked for order/parent/unary-chain rules; exhaustive small trees x genotype vectors, every argument form, fan-outs past 2^8 and 2^16, and a valid call after every refused call on the same Tree.", "reference DP oracle + exhaustive small scope + history (call after refusal)"),
 }
 
 NOTE = "Trusts the Python reference model (lib/model.py and the property's own reference code) and tskit's raw column accessors; the verdict is 'held on the executions observed on an ASan+UBSan build of /repo's current sources', never universal."
